@@ -97,8 +97,8 @@ def generate(rng, tier):
     kinds = {"pickle": ["bool", "int", "float", "str", "lstr", "date", "datetime", "obool", "ustr", "timedelta", "float32", "int32", "obj"],
              "npz": ["bool", "int", "float", "str", "date", "datetime", "obool", "ustr", "timedelta", "float32"],
              "parquet": ["bool", "int", "float", "str", "date", "datetime"],
-             "csv": ["bool", "int", "float", "str", "date", "datetime"],
-             "json": ["bool", "int", "float", "str", "obool"]}[fmt]
+             "csv": ["bool", "int", "float", "str", "date", "datetime", "float32"],
+             "json": ["bool", "int", "float", "str", "obool", "float32"]}[fmt]
     ncol = rng.randint(2, 5)
     spec = []
     for j in range(ncol):
@@ -112,6 +112,8 @@ def generate(rng, tier):
         elif kind == "datetime" and fmt == "csv":
             vals = [rng.choice(gen.DATETIMES) for _ in range(n)]
             if na == "first": vals[0] = None
+        elif kind == "float32":
+            vals = [None if (na == "some" and rng.random() < 0.3) else rng.choice([0.1, 2.7, 1 / 3, 0.5, -1.25, 1e-3, 123456.789]) for _ in range(n)]
         elif kind == "float":
             vals = gen.gen_values(rng, "float", n, na, "few", 0.5 if fmt != "csv" else 0.3)
             if fmt in ("csv",):
